@@ -14,8 +14,24 @@
   The proved `_partial` theorems restrict to `v.NoReservedKeys` and `v.WF`; `WF` asks for: longs in int64
   range, sets duplicate-free and records key-sorted (what `NewSet` / `NewRecord` build), and for each extension
   leaf that `parse (print x) = x` — so the JSON layer itself is shown to add no loss.
+
+  LEAF HYPOTHESES DISCHARGED FROM C12 (last section, `…_inrange`): `WF` is implied by two purely structural,
+  decidable predicates — `Value.Canonical` (sets duplicate-free, records key-sorted: the container part of `WF`
+  verbatim) and `Value.InRange` (every long / decimal / duration in int64 range, every datetime in
+  [minDatetime, MaxInt64 ms], every ip a valid IPv4 or IPv6 address / prefix that is not IPv4-mapped) — via
+  `C12_decimal_roundtrip`, `C12_duration_roundtrip`, `C12_datetime_roundtrip_partial`, `C12_ip_roundtrip_iff`
+  (= `C12_ip_roundtrip_partial` for IPv4 + `C12_ip_roundtrip_v6_partial` for IPv6) and `printIPNet_eq` (the JSON model's
+  own `IPAddr.String` transcription equals the scalar model's).  The `_inrange` corollaries of the round-trip theorems
+  therefore carry NO parse∘print hypothesis.  Outside `InRange` remain exactly the two open defects of cedar-go, and
+  there the round trip provably FAILS (`C13_leaf_outside_range_rejected`):
+    * datetimes in the first day of the int64 range, [MinInt64, MinInt64 + 86 400 000) ms
+      (`C12_datetime_first_day_unparseable`, `C13_datetime_first_day_counterexample`);
+    * IPv4-mapped IPv6 addresses ::ffff:a.b.c.d with any prefix length (`C12_ip_4in6_unparseable`,
+      `C13_ip_v4mapped_counterexample`).
+  (Values no Go value can be — longs / decimals / durations outside int64, ip values wider than their family — are
+  outside too; they are not values of the Go types.)
 -/
-import CedarGoProofs.Lemmas.C13
+import CedarGoProofs.Lemmas.C13Leaves
 namespace CedarGo
 open JsonModel Scalars
 
@@ -242,5 +258,117 @@ theorem C13_coerce_implicit_ip (a : IPNet) (h : (Value.ip a).WF) :
   have e : J.str (printIPNet a) = encodeValue (.str (printIPNet a)) := rfl
   rw [e, decodeValue_encodeValue _ (by simp [vWF]) (by simp [vNoReserved])]
   simp [Except.map, coerceValue, coerceExtension, hp]
+
+/-! ### Leaf hypotheses discharged from C12 (no parse∘print hypothesis left) -/
+
+/-- containers as `NewSet` / `NewRecord` build them: every set inside `v` duplicate-free, every record listed by strictly
+    increasing key (this is, verbatim, the container part of `WF`: `C13_canonical_of_wf`) -/
+def Value.Canonical (v : Value) : Prop := vCanon v = true
+/-- every scalar leaf of `v` lies in the range for which C12 proves `parse (print x) = x`: longs, decimals (raw
+    ten-thousandths) and durations (ms) in int64 range; datetimes (ms) in [`minDatetimeMs`, MaxInt64]; ip values valid
+    (IPv4: 32-bit address, prefix ≤ 32; IPv6: 128-bit address, prefix ≤ 128) and not IPv4-mapped (`IPNet.Valid`,
+    `IPNet.Is4In6` of C12).  Purely structural — no parser or printer occurs in it. -/
+def Value.InRange (v : Value) : Prop := vInRange v = true
+instance (v : Value) : Decidable v.Canonical := by unfold Value.Canonical; infer_instance
+instance (v : Value) : Decidable v.InRange := by unfold Value.InRange; infer_instance
+
+/-- **C12 ⟹ the leaf part of `WF`**: a canonical value whose leaves are in range is well-formed. -/
+theorem C13_wf_of_inRange (v : Value) (hc : v.Canonical) (hi : v.InRange) : v.WF := vWF_of_inRange v hc hi
+
+/-- … and `Canonical` asks for nothing `WF` did not ask for. -/
+theorem C13_canonical_of_wf (v : Value) (hw : v.WF) : v.Canonical := vCanon_of_vWF v hw
+
+/-- **Round trip** with the leaf hypotheses discharged: for every canonical value without reserved keys whose leaves are in
+    range, decoding the encoding succeeds with an equal value.  Not covered: first-day datetimes and IPv4-mapped IPv6
+    (open defects of cedar-go; for them the round trip fails: `C13_leaf_outside_range_rejected`). -/
+theorem C13_value_json_roundtrip_inrange (v : Value) (hr : v.NoReservedKeys) (hc : v.Canonical) (hi : v.InRange) :
+    ∃ v', decodeValue (encodeValue v) = .ok v' ∧ v'.beq v = true :=
+  C13_value_json_roundtrip_partial v hr (C13_wf_of_inRange v hc hi)
+
+theorem C13_value_json_roundtrip_exact_inrange (v : Value) (hr : v.NoReservedKeys) (hc : v.Canonical) (hi : v.InRange) :
+    decodeValue (encodeValue v) = .ok v :=
+  C13_value_json_roundtrip_exact_partial v hr (C13_wf_of_inRange v hc hi)
+
+theorem C13_value_json_stable_inrange (v v' : Value) (hr : v.NoReservedKeys) (hc : v.Canonical) (hi : v.InRange)
+    (h : decodeValue (encodeValue v) = .ok v') : encodeValue v' = encodeValue v :=
+  C13_value_json_stable_partial v v' hr (C13_wf_of_inRange v hc hi) h
+
+example : (Value.record [("a", .set [.long 1, .str "x", .entity "T" "i"]), ("b", .decimal 15000), ("c", .ip ⟨false, 167772161, 8⟩),
+    ("d", .duration minI64), ("e", .datetime 1700000000000), ("f", .datetime minDatetimeMs),
+    ("g", .ip ⟨true, 0x20010db8000000000000000000000001, 64⟩)]).Canonical := by decide +kernel
+example : (Value.record [("a", .set [.long 1, .str "x", .entity "T" "i"]), ("b", .decimal 15000), ("c", .ip ⟨false, 167772161, 8⟩),
+    ("d", .duration minI64), ("e", .datetime 1700000000000), ("f", .datetime minDatetimeMs),
+    ("g", .ip ⟨true, 0x20010db8000000000000000000000001, 64⟩)]).InRange := by decide +kernel
+-- the two open defects are outside `InRange`
+example : ¬ (Value.datetime minI64).InRange ∧ ¬ (Value.datetime (minDatetimeMs - 1)).InRange ∧
+    ¬ (Value.ip ⟨true, 0xffff01020304, 128⟩).InRange ∧ (Value.ip ⟨true, 1, 128⟩).InRange := by decide +kernel
+
+/-- the leaf cases on their own: every in-range scalar round-trips through its `__extn` escape -/
+theorem C13_leaf_json_roundtrip_inrange :
+    (∀ d, InI64 d → decodeValue (encodeValue (.decimal d)) = .ok (.decimal d)) ∧
+    (∀ d, InI64 d → decodeValue (encodeValue (.duration d)) = .ok (.duration d)) ∧
+    (∀ t, minDatetimeMs ≤ t → t ≤ maxI64 → decodeValue (encodeValue (.datetime t)) = .ok (.datetime t)) ∧
+    (∀ a : IPNet, a.Valid → ¬ a.Is4In6 → decodeValue (encodeValue (.ip a)) = .ok (.ip a)) := by
+  refine ⟨fun d h => ?_, fun d h => ?_, fun t h1 h2 => ?_, fun a hv h4 => ?_⟩
+  · exact decodeValue_encodeValue _ (wf_decimal d h) rfl
+  · exact decodeValue_encodeValue _ (wf_duration d h) rfl
+  · exact decodeValue_encodeValue _ (wf_datetime t (by simp [datetimeInRange, h1, h2])) rfl
+  · exact decodeValue_encodeValue _ (wf_ip _ (by simp [ipInRange, hv, h4])) rfl
+
+/-- … and `InRange` is exact on the leaves of the Go types: the remaining datetime values (first day of the int64 range)
+    and the remaining valid ip values (IPv4-mapped IPv6, any prefix length) are REJECTED by the decoder — the two open
+    defects of cedar-go, now shown for the whole class rather than one witness -/
+theorem C13_leaf_outside_range_rejected :
+    (∀ t, minI64 ≤ t → t < minDatetimeMs → decodeValue (encodeValue (.datetime t)) = .error .reject) ∧
+    (∀ a : IPNet, a.Is4In6 → decodeValue (encodeValue (.ip a)) = .error .reject) := by
+  refine ⟨fun t h1 h2 => ?_, fun a h4 => ?_⟩
+  · have hm := minDatetimeMs_eq
+    have h := C12_datetime_first_day_unparseable t h1 (by unfold minI64 at *; omega)
+    simp only [decodeValue, decodeValueF, encodeValue, extnStep_extJ, parseExt_datetime, h]
+    rfl
+  · obtain ⟨v6, addr, bits⟩ := a
+    obtain ⟨h6, h4⟩ := h4
+    simp only at h6 h4
+    subst h6
+    have h := C12_ip_4in6_unparseable addr bits h4
+    rw [← printIPNet_eq] at h
+    simp only [decodeValue, decodeValueF, encodeValue, extnStep_extJ, parseExt_ip, h]
+    rfl
+
+/-- entity data as `Entity.MarshalJSON` emits it, attribute / tag records canonical, in range, without reserved keys -/
+def EntityData.InRangeJson (d : EntityData) : Prop :=
+  sortUIDs d.parents = d.parents ∧ recordInRange d.attrs = true ∧ recordInRange d.tags = true
+
+theorem C13_entity_json_roundtrip_inrange (uid : UID) (d : EntityData) (h : d.InRangeJson) :
+    decodeEntity (encodeEntity (uid, d)) = .ok (uid, d) :=
+  C13_entity_json_roundtrip_partial uid d ⟨h.1, recordWF_of_inRange _ h.2.1, recordWF_of_inRange _ h.2.2⟩
+
+example : (⟨[("Group", "a"), ("Group", "b")], [("n", .long 1), ("when", .datetime 0)], [("t", .set [.decimal 5, .ip ⟨false, 1, 32⟩, .ip ⟨true, 1, 128⟩])]⟩ :
+    EntityData).InRangeJson := by
+  refine ⟨by decide +kernel, by decide +kernel, by decide +kernel⟩
+
+def JsonModel.RequestM.InRangeJson (r : RequestM) : Prop := recordInRange r.context = true
+
+theorem C13_request_json_roundtrip_inrange (r : RequestM) (h : r.InRangeJson) :
+    decodeRequest (encodeRequest r) = .ok r :=
+  C13_request_json_roundtrip_partial r (recordWF_of_inRange _ h)
+
+example : (⟨("User", "a"), ("Action", "x"), ("Doc", "d"), [("k", .set [.long 1, .duration (-5)])]⟩ : RequestM).InRangeJson := by
+  unfold JsonModel.RequestM.InRangeJson; decide +kernel
+
+/-- the spellings of a decimal agree for EVERY int64 decimal (no hypothesis on its text) -/
+theorem C13_spellings_agree_decimal_inrange (d : Int) (h : InI64 d) :
+    decodeDecimalTyped (encodeValue (.decimal d)) = .ok (.decimal d) ∧
+    decodeDecimalTyped (.str (printDecimal d)) = .ok (.decimal d) ∧
+    decodeValue (encodeValue (.decimal d)) = .ok (.decimal d) :=
+  C13_spellings_agree_decimal d (wf_decimal d h)
+
+theorem C13_coerce_implicit_decimal_inrange (d : Int) (h : InI64 d) :
+    (decodeValue (.str (printDecimal d))).map (coerceValue (.ext "decimal")) = .ok (.decimal d) :=
+  C13_coerce_implicit_decimal d (wf_decimal d h)
+
+theorem C13_coerce_implicit_ip_inrange (a : IPNet) (hv : a.Valid) (h4 : ¬ a.Is4In6) :
+    (decodeValue (.str (printIPNet a))).map (coerceValue (.ext "ipaddr")) = .ok (.ip a) :=
+  C13_coerce_implicit_ip _ (wf_ip _ (by simp [ipInRange, hv, h4]))
 
 end CedarGo
